@@ -10,7 +10,8 @@ CUSTOM = {
     "P2": ({"p2-a": "{integer}", "p2-c": "{absolute-size}"}, {"integer": "p2i", "absolute-size": "p2s"}),
     "P3": ({"p3-b": "{mynew}", "p3-a": "{integer}"}, {"mynew": "p3n"}),
     "P4": ({"p4-a": "{integer}", "z-index": "p4z"}, {}),
-    "P5": ({"p5-a": "{uri}"}, {"uri": "p5u"}),                # shadows a TOKEN-level macro that the built-ins use too
+    "P5": ({"p5-a": "{uri}"}, {"uri": "p5u"}),
+    "P6": ({"p6-f": lambda v: v == "p6f"}, {}),               # validated by a function, not by a pattern                # shadows a TOKEN-level macro that the built-ins use too
     "P1x": ({"p1-a": "{integer}", "p1-b": "p1x"}, None),      # registered under the name P1, no macros argument at all
 }
 # P3 is registered under a name that CONTAINS the names of P1 and P2 (a profile name given as a single string must be compared as a
@@ -25,7 +26,7 @@ URI_LITS = ["url(x)", "p5u"]
 PROBES = [
     ("P1.a", "p1-a", INT_LITS), ("P1.b", "p1-b", NEW_LITS), ("P2.a", "p2-a", INT_LITS), ("P2.c", "p2-c", ABS_LITS),
     ("P3.b", "p3-b", NEW_LITS), ("P3.a", "p3-a", INT_LITS), ("P4.a", "p4-a", INT_LITS),
-    ("P5.a", "p5-a", URI_LITS), ("B.bg", "background-image", URI_LITS),
+    ("P5.a", "p5-a", URI_LITS), ("P6.f", "p6-f", ["p6f", "7"]), ("B.bg", "background-image", URI_LITS),
     ("B.z", "z-index", INT_LITS + ["p4z"]), ("B.fs", "font-size", ABS_LITS), ("B.color", "color", ["red", "p1i"]),
     ("none", "no-such-property", ["7", "red"]),
 ]
